@@ -244,6 +244,20 @@ PATH_RNG = {}    # expr id -> (lo, hi), valid under the current path condition o
 _rng_memo = {}
 _keep = []       # keeps z3 terms alive whose ids are used as dict keys
 INF = 1 << 200
+def conc_struct(v):
+    """hashable structural constant of a value made of concrete scalars / strings / aggregates, else None"""
+    if isinstance(v, Scalar):
+        x = conc(v); return None if x is None else ('s', x)
+    if isinstance(v, StrVal): return ('str', v.text)
+    if isinstance(v, Agg):
+        fs = []
+        for f in v.fields:
+            if isinstance(f, Cell): return None
+            x = conc_struct(f)
+            if x is None: return None
+            fs.append(x)
+        return ('a', v.ty, v.variant, tuple(fs))
+    return None
 def rng(e):
     """interval of an Int term, conservative; (-INF, INF) if unknown"""
     if isinstance(e, int): return (e, e)
@@ -650,6 +664,8 @@ class Exec:
             c = t[6:]
             if re.match(r'^(-?\d+_\w+|true|false|\(\))$', c.strip()): r = ('k', self.const(c))
             else: r = ('K', c)
+        elif re.match(r'^[A-Za-z_<][^ ]*(::[^ ]+)+( as [^ ]+)?[^ ]*$', t) or re.match(r'^(core|std|alloc)::', t):
+            r = ('k', Opaque(t))          # function item used as a value (e.g. `fold(0, u32::saturating_add)`): called through call_closure
         else: raise Unsupported('operand? ' + s)
         self.op_cache[s] = r; return r
     def eval_op(self, frame, o):
@@ -951,8 +967,26 @@ class Exec:
             for c, v in reversed(items[:-1]): e = z3.If(Z(c), Z(v.e), e)
             return Scalar(norm(z3.simplify(e)), v0.ty)
         if all(v is v0 for v in vals): return v0
+        if all(isinstance(v, StrVal) for v in vals) and all(v.text == v0.text for v in vals): return v0
+        if all(isinstance(v, Opaque) for v in vals) and all(v.what == v0.what for v in vals): return v0
+        if all(isinstance(v, VecVal) for v in vals) and all(len(v.cells) == len(v0.cells) for v in vals):
+            return VecVal([Cell(self.merge_values([(c, v.cells[i].v) for c, v in items])) for i in range(len(v0.cells))])
+        if all(isinstance(v, MapVal) for v in vals) and all(len(v.entries) == len(v0.entries) for v in vals):
+            # finite maps with structurally concrete keys: merge entry-wise by key (insertion order may differ between paths)
+            def ck(k):
+                x = conc_struct(k)
+                if x is None: raise Unsupported('merge of maps with symbolic keys')
+                return x
+            keys0 = [ck(k) for k, c_ in v0.entries]
+            per = [{ck(k): c_ for k, c_ in v.entries} for v in vals]
+            if any(set(d) != set(keys0) or len(d) != len(keys0) for d in per): raise Unsupported('merge of maps with different key sets')
+            mv = MapVal([(k, Cell(self.merge_values([(c, per[j][kc].v) for j, (c, v) in enumerate(items)]))) for (k, c_), kc in zip(v0.entries, keys0)], name=getattr(v0, 'name', None))
+            if hasattr(v0, 'ordered'): mv.ordered = v0.ordered
+            return mv
         if all(isinstance(v, Agg) for v in vals) and all(v.ty == v0.ty and len(v.fields) == len(v0.fields) and v.variant == v0.variant for v in vals):
-            if v0.ty == 'Arc': raise Unsupported('merge of Arc values')
+            if v0.ty == 'Arc':
+                if not all(isinstance(v.fields[0], Cell) for v in vals): raise Unsupported('merge of Arc values')
+                return Agg('Arc', v0.variant, [Cell(self.merge_values([(c, v.fields[0].v) for c, v in items]))] + list(v0.fields[1:]))
             return Agg(v0.ty, v0.variant, [self.merge_values([(c, v.fields[i]) for c, v in items]) for i in range(len(v0.fields))])
         if all(isinstance(v, (Agg, Lazy)) for v in vals) and len(set(last_seg(v.ty) for v in vals)) == 1 and last_seg(v0.ty) in ENUMS:
             en = last_seg(v0.ty); names = ENUMS[en]
